@@ -714,6 +714,33 @@ def rule_radix(ctx):
         r.violation(k, C.loc(sk, br[0]), "; ".join(probs))
     else:
         r.ok(k, C.loc(sk, br[0]), "a projected index takes its fixed value and consumes no digit")
+    # (seed C02_11) the values an index ranges over when the chunks are stacked back (`SliceInfo.sliced_range`) are
+    # the values `slice_key` files the chunks under: 0 .. size-1 for a sliced index, the projected value for a
+    # projected one (sibling agreement of the two branches)
+    si = ctx.p.cls(C.CORE, "SliceInfo")
+    sr = si.methods.get("sliced_range") if si is not None else None
+    C.require(sr is not None, "SliceInfo.sliced_range not found")
+    k = ctx.key(sr, "C06-RADIX", "values")
+    rets = [n for n in walk_local(sr.node) if isinstance(n, ast.Return) and n.value is not None]
+    sliced_ok = proj_ok = False
+    for rt in rets:
+        g = C.enclosing_ifs(sr, rt)
+        t = g[0][0].test if g else None
+        none_branch = None
+        if isinstance(t, ast.Compare) and C.unparse(t.left) == "self.project" and C.unparse(t.comparators[0]) == "None":
+            is_none = isinstance(t.ops[0], ast.Is)
+            none_branch = (g[0][1] == is_none)
+        v = rt.value
+        if C.unparse(v).replace(" ", "") == "range(self.size)" and none_branch is True:
+            sliced_ok = True
+        if isinstance(v, (ast.List, ast.Tuple)) and len(v.elts) == 1 and C.unparse(v.elts[0]) == "self.project" and none_branch is False:
+            proj_ok = True
+    if sliced_ok and proj_ok:
+        r.ok(k, sr.loc, "range(size) for a sliced index, [project] for a projected one — the values slice_key uses")
+    else:
+        r.violation(k, sr.loc, "sliced_range does not yield range(size) for a sliced and exactly the projected value for a projected "
+                    "index: gather_slices files chunks under the values slice_key produces and looks them up under the values "
+                    "of sliced_range — for an output index projected to k != 0 the chunk is not found (or the wrong one is)")
     return r
 
 
